@@ -76,7 +76,7 @@ def rule_p(F):
                     if op is not None:
                         l = op_local(op)
                         if l is not None:
-                            good, why = pot_origin(f, du, l)
+                            good, why = pot_origin(f, du, l, T=T)
                         elif op.get("k") == "const":
                             v = op.get("val")
                             good = isinstance(v, int) and v >= 2 and (v & (v - 1)) == 0
@@ -112,53 +112,131 @@ def rule_p(F):
     return res
 
 
-def pot_origin(f, du, local, depth=0):
-    """is the local derived from pad_pot(..) / next_power_of_two() (optionally through max(const pot))?"""
-    seen = set()
-    while depth < 12:
-        depth += 1
-        if local in seen:
-            return False, "cyclic"
-        seen.add(local)
-        ds = du.defs.get(local, [])
-        if len(ds) != 1:
-            if 1 <= local <= f.mir["arg_count"]:
-                return False, "the caller's argument is stored unchanged"
-            return False, "several definitions"
-        bi, si, kind, payload = ds[0]
-        if kind == "call":
-            nm = callee_names(payload["func"])
-            last = nm[0].rsplit("::", 1)[-1]
-            if last in ("pad_pot", "next_power_of_two"):
-                return True, "derived from %s" % last
-            if last in ("max", "min", "clamp"):
-                a0 = op_local(payload["args"][0])
-                other = payload["args"][1]
-                if other.get("k") == "const":
-                    v = other.get("val")
-                    if not (isinstance(v, int) and v >= 1 and (v & (v - 1)) == 0):
-                        return False, "max with non-power-of-two constant"
-                if a0 is None:
-                    return False, "max of a constant"
-                local = a0
-                continue
-            if last in ("capacity",):
-                return True, "copied from another table's capacity"
-            return False, "result of %s" % last
-        rv = payload["rv"]
-        if rv["k"] in ("use", "cast"):
-            p = op_place(rv["op"])
-            if p is None:
-                return False, "constant"
-            if p["p"]:
-                names = [e["name"] for e in p["p"] if e["k"] == "field"]
-                if names[-1:] == ["capacity"]:
-                    return True, "copied from a table's capacity"
-                return False, "field"
-            local = p["l"]
-            continue
-        return False, rv["k"]
-    return False, "too deep"
+def _is_pot_const(op):
+    v = op.get("val") if op is not None and op.get("k") == "const" else None
+    return isinstance(v, int) and v >= 1 and (v & (v - 1)) == 0
+
+
+def pot_origin(f, du, local, depth=0, seen=None, T=None):
+    """is the local a power of two by construction: derived from pad_pot(..) / next_power_of_two() / a table's capacity,
+    optionally through max/min with a power-of-two constant and through doubling (`c *= 2`, `c << 1`) - along EVERY
+    definition of the local (a loop-carried `c = c * 2` is the induction step); the result of a function of the table whose
+    every returned value is such; a parameter of a private function of the table (T given) whose every call site passes
+    such a value.  -> (bool, explanation)"""
+    seen = set() if seen is None else seen
+    if depth > 14:
+        return False, "too deep"
+    if (f.short, local) in seen:
+        return True, "carried around a loop"
+    seen = seen | {(f.short, local)}
+    ds = [d for d in du.defs.get(local, []) if not d[3].get("place", d[3].get("dest"))["p"]]
+    if not ds:
+        if 1 <= local <= f.mir["arg_count"]:
+            if T is not None and str(f.raw.get("vis", "")) != "Public" and T.fn_by_short(f.short) is not None:
+                sites = []
+                for g in T.fns:
+                    if not g.mir or g is f:
+                        continue
+                    for _cb, ct in mu.calls(g):
+                        if f.short in callee_names(ct["func"]) and len(ct["args"]) >= local:
+                            sites.append((g, ct["args"][local - 1]))
+                if sites:
+                    for g, a in sites:
+                        al = op_local(a)
+                        if al is None:
+                            good, why = (_is_pot_const(a) and a.get("val") >= 2), "constant %s" % a.get("val")
+                        else:
+                            good, why = pot_origin(g, DefUse(g), al, depth + 1, seen, T)
+                        if not good:
+                            return False, "%s passes a value that is not a power of two by construction (%s)" % (g.name, why)
+                    return True, "a power of two at every call site (%s)" % ", ".join(sorted(set(g.name for g, _a in sites)))
+            return False, "the caller's argument is stored unchanged"
+        return False, "no definition"
+    whys = []
+    for bi, si, kind, payload in ds:
+        good, why = _pot_def(f, du, kind, payload, depth, seen, T)
+        if not good:
+            return False, why
+        whys.append(why)
+    return True, whys[0] if len(whys) == 1 else "every assignment keeps it a power of two (%s)" % "; ".join(sorted(set(whys)))
+
+
+def _pot_mul(f, du, rv, depth, seen, T):
+    """`x * 2^k` / `x << k` of a power of two x"""
+    if rv["k"] != "bin" or rv["op"] not in ("Mul", "MulWithOverflow", "MulUnchecked", "Shl", "ShlUnchecked"):
+        return None
+    l, r = rv["l"], rv["r"]
+    if rv["op"].startswith("Shl"):
+        ll = op_local(l)
+        if ll is None or r.get("k") != "const":
+            return False, "shift"
+        return pot_origin(f, du, ll, depth + 1, seen, T)
+    for a, b in ((l, r), (r, l)):
+        if _is_pot_const(b) and op_local(a) is not None:
+            good, why = pot_origin(f, du, op_local(a), depth + 1, seen, T)
+            return good, ("doubled: " + why) if good else why
+    return False, "product with something that is not a power-of-two constant"
+
+
+def _pot_def(f, du, kind, payload, depth, seen, T):
+    if kind == "call":
+        nm = callee_names(payload["func"])
+        last = nm[0].rsplit("::", 1)[-1]
+        if last in ("pad_pot", "next_power_of_two"):
+            return True, "derived from %s" % last
+        if last in ("max", "min", "clamp"):
+            a0 = op_local(payload["args"][0])
+            other = payload["args"][1]
+            if other.get("k") == "const":
+                if not _is_pot_const(other):
+                    return False, "max with non-power-of-two constant"
+            else:
+                ol = op_local(other)
+                good, why = pot_origin(f, du, ol, depth + 1, seen, T) if ol is not None else (False, "operand")
+                if not good:
+                    return False, why
+            if a0 is None:
+                return False, "max of a constant"
+            return pot_origin(f, du, a0, depth + 1, seen, T)
+        if last in ("capacity",):
+            return True, "copied from another table's capacity"
+        if T is not None:
+            for n in nm:
+                g = T.fn_by_short(n)
+                if g is not None and g.mir:
+                    # every value g returns
+                    gdu = DefUse(g)
+                    rets = [d for d in gdu.defs.get(0, []) if not d[3].get("place", d[3].get("dest"))["p"]]
+                    if not rets:
+                        return False, "result of %s" % last
+                    for _b, _s, k2, p2 in rets:
+                        good, why = _pot_def(g, gdu, k2, p2, depth + 1, seen, T)
+                        if not good:
+                            return False, "result of %s (%s)" % (last, why)
+                    return True, "result of %s, which returns a power of two" % last
+        return False, "result of %s" % last
+    rv = payload["rv"]
+    if rv["k"] in ("use", "cast"):
+        p = op_place(rv["op"])
+        if p is None:
+            return (True, "constant") if _is_pot_const(rv["op"]) and rv["op"].get("val") >= 2 else (False, "constant")
+        if p["p"]:
+            names = [e["name"] for e in p["p"] if e["k"] == "field"]
+            if names[-1:] == ["capacity"]:
+                return True, "copied from a table's capacity"
+            if names == ["0"] and len(p["p"]) == 1:
+                # `(_t.0)` of a checked multiplication
+                d = du.sole_def(p["l"])
+                if d is not None and d[2] == "assign":
+                    r = _pot_mul(f, du, d[3]["rv"], depth, seen, T)
+                    if r is not None:
+                        return r
+            return False, "field"
+        return pot_origin(f, du, p["l"], depth + 1, seen, T)
+    r = _pot_mul(f, du, rv, depth, seen, T)
+    if r is not None:
+        return r
+    return False, rv["k"]
 
 
 def rule_r(F):
@@ -242,9 +320,8 @@ def rule_f(F):
 def rule_k(F):
     """every resize leaves a free slot: for each call of adjust_capacity, in all small states (count < capacity) in which the
     guards around the call hold, the installed capacity exceeds the item count (cao/capacity.py, exhaustive evaluation)."""
-    from cao import capacity
     res = []
-    for f, ln, status, msg in capacity.free_slot_after_resize(F, "collections::handle_table::HandleTable", True):
+    for f, ln, status, msg in tb.free_slot_after_resize(table(F), True):
         key = "C13/K/%s/free-slot-after-resize" % f.name
         mk = {"ok": ok, "bad": bad, "undecided": undecided}[status]
         res.append(mk("C13.K", key, f.loc(ln), msg))
